@@ -69,6 +69,7 @@ type Obs struct {
 // Case is an explicit case.
 type Case struct {
 	Stream  string   `json:"stream"`
+	Hist    string   `json:"hist,omitempty"` // match (default) | none | missing | surplus
 	Layers  int      `json:"layers"`
 	Depth   int      `json:"depth"`
 	Entries []Entry  `json:"entries"`
@@ -79,10 +80,11 @@ type Case struct {
 
 // XCase is a graph of the exhaustive stream (all 7 depths).
 type XCase struct {
-	Stream string `json:"stream"`
-	Idx    int64  `json:"idx"`
-	Kinds  []int  `json:"kinds"`
-	Desc   string `json:"desc,omitempty"`
+	Stream string   `json:"stream"`
+	Hist   string   `json:"hist"` // history mode of the image: idx mod 4 -> match | none | missing | surplus
+	Idx    int64    `json:"idx"`
+	Kinds  []int    `json:"kinds"`
+	Desc   string   `json:"desc,omitempty"`
 	Obs    []string `json:"obs"` // per max depth 0..6: 30 digits, index (view*5+entry)*3+op (op: stat, open, readdir)
 }
 
@@ -123,13 +125,43 @@ func must(err error) {
 	}
 }
 
-func buildImage(entries []Entry, layers int) v1.Image {
+// histModes: how the config history relates to the layers.  Everything but "match" makes
+// validateHistory fail, so that initializeChainLayers takes its fallback path (one unnamed chain
+// layer per v1 layer) -- the views and the hop budget must be the same as with a matching history.
+var histModes = []string{"match", "none", "missing", "surplus"}
+
+// setHistory replaces the config history: flags = EmptyLayer of each entry; nil = no history at all.
+func setHistory(im v1.Image, flags []bool) v1.Image {
+	cfgFile, err := im.ConfigFile()
+	must(err)
+	cfgFile = cfgFile.DeepCopy()
+	cfgFile.History = nil
+	for i, e := range flags {
+		cfgFile.History = append(cfgFile.History, v1.History{CreatedBy: fmt.Sprintf("step %d", i), EmptyLayer: e})
+	}
+	im, err = mutate.ConfigFile(im, cfgFile)
+	must(err)
+	return im
+}
+
+func buildImage(entries []Entry, layers int, hist string) v1.Image {
 	ls := make([]v1.Layer, layers)
 	for i := range ls {
 		ls[i] = mkLayer(entries, i)
 	}
 	im, err := mutate.AppendLayers(empty.Image, ls...)
 	must(err)
+	switch hist {
+	case "", "match":
+	case "none":
+		im = setHistory(im, nil)
+	case "missing":
+		im = setHistory(im, make([]bool, layers-1))
+	case "surplus":
+		im = setHistory(im, make([]bool, layers+1))
+	default:
+		panic("hist " + hist)
+	}
 	return im
 }
 
@@ -193,7 +225,7 @@ func observe(fsys interface {
 // runCase loads the image with the case's max depth and queries every chain layer.
 func runCase(c *Case, im v1.Image) {
 	if im == nil {
-		im = buildImage(c.Entries, c.Layers)
+		im = buildImage(c.Entries, c.Layers, c.Hist)
 	}
 	cfg := img.DefaultConfig()
 	cfg.MaxSymlinkDepth = c.Depth
@@ -444,11 +476,12 @@ const maxDepthExh = 6
 // significant digit first) and the explicit cases (one per depth).
 func runGraph(idx int64) (XCase, []*Case) {
 	kinds, es := decodeGraph(idx)
-	im := buildImage(es, 2)
+	hist := histModes[idx%int64(len(histModes))]
+	im := buildImage(es, 2, hist)
 	var blocks []string
 	var cases []*Case
 	for d := 0; d <= maxDepthExh; d++ {
-		c := &Case{Stream: "exh", Layers: 2, Depth: d, Entries: es, Queries: universe}
+		c := &Case{Stream: "exh", Layers: 2, Depth: d, Entries: es, Queries: universe, Hist: hist}
 		runCase(c, im)
 		cases = append(cases, c)
 		// order: view, then entry (runCase) -> index ((d*2+v)*5+j)*3+op
@@ -458,7 +491,7 @@ func runGraph(idx int64) (XCase, []*Case) {
 		}
 		blocks = append(blocks, string(digits))
 	}
-	return XCase{Stream: "exh", Idx: idx, Kinds: kinds, Desc: describeKinds(kinds), Obs: blocks}, cases
+	return XCase{Stream: "exh", Hist: hist, Idx: idx, Kinds: kinds, Desc: describeKinds(kinds), Obs: blocks}, cases
 }
 
 // ---------------------------------------------------------------- explicit streams
@@ -842,7 +875,8 @@ func main() {
 		distinct := map[[32]byte]struct{}{}
 		evals := 0
 		streams := map[string]int{}
-		for _, c := range cases {
+		for ci, c := range cases {
+			c.Hist = histModes[(ci+int(*seed))%len(histModes)]
 			runCase(c, nil)
 			must(enc.Encode(c))
 			items = append(items, coqCase(c))
